@@ -194,6 +194,9 @@ func runC20(w *World) {
 		w.Probe("prologue-add-delete-before-serve")
 	}
 	nclients := 2 + w.Draw(3, "nclients")
+	if w.Tier == "thorough" {
+		nclients = 2 + w.Draw(4, "nclients-thorough")
+	}
 	busy := nclients
 	for cl := 0; cl < nclients; cl++ {
 		cl := cl
@@ -243,7 +246,7 @@ func runC20(w *World) {
 				case 3: // invalid add
 					cfg := corebgp.PeerConfig{RemoteAddress: ip, LocalAS: 65001, RemoteAS: 64999}
 					var opts []corebgp.PeerOption
-					class := Pick(w, "invalid", "zero-remote-address", "family-mismatch", "local-as-0", "remote-as-0", "local-as-0-with-local-address", "remote-as-0-with-local-address", "hold-1", "hold-2", "port-0", "port-negative", "port-65536")
+					class := Pick(w, "invalid", "zero-remote-address", "family-mismatch", "local-as-0", "remote-as-0", "local-as-0-with-local-address", "remote-as-0-with-local-address", "hold-1", "hold-2", "port-0", "port-negative", "port-65536", "port-out-of-range")
 					la := "10.0.0.6"
 					if key == 2 {
 						la = "fd00::6"
@@ -278,6 +281,8 @@ func runC20(w *World) {
 						opts = append(opts, corebgp.WithPort(-1))
 					case "port-65536":
 						opts = append(opts, corebgp.WithPort(65536))
+					case "port-out-of-range":
+						opts = append(opts, corebgp.WithPort(Pick(w, "badport", 65537, 65536+179, 70000, -179, 1<<20+179, 1<<31-1, -65535)))
 					}
 					w.Probe("invalid:" + class)
 					pl := w.NewPlug("invalid")
